@@ -43,6 +43,8 @@ fn main() {
                 };
                 let r = std::panic::catch_unwind(|| exec_case(&case)).unwrap_or(serde_json::json!("panic"));
                 writeln!(w, "{}", serde_json::json!({"cid": case["cid"], "impl": r})).unwrap();
+                // every answer leaves the process at once: a case that ends the process loses no earlier answer
+                w.flush().unwrap();
             }
         }
         _ => {
